@@ -210,6 +210,15 @@ func validRequests(reg *Registry) []baseReq {
 			baseReq{"tools/call:echo-nested", "tools/call", vp(Obj(F("name", Str("echo")), F("arguments", Obj(F("a", Arr(Int(1), Num("2.5"), Null(), Bool(true), Str(""), Obj(F("k", Arr())))), F("n", Int(-7)), F("z", Num("1e3")))), F("_meta", Obj(F("progressToken", Str("tok"))))))},
 		)
 	}
+	if reg.tool("needs-x") != nil {
+		// a required argument of the tool's input schema present, absent, with `arguments` empty / absent / null
+		call := func(l string, members ...KV) baseReq {
+			return baseReq{"tools/call:needs-x:" + l, "tools/call", vp(Obj(append([]KV{F("name", Str("needs-x"))}, members...)...))}
+		}
+		rs = append(rs, call("present", F("arguments", Obj(F("x", Str("v")), F("n", Int(1))))), call("empty-arguments", F("arguments", Obj())),
+			call("no-arguments"), call("null-arguments", F("arguments", Null())), call("only-optional", F("arguments", Obj(F("n", Int(1))))),
+			call("required-null", F("arguments", Obj(F("x", Null())))), call("required-wrong-type", F("arguments", Obj(F("x", Int(5))))))
+	}
 	for _, p := range reg.prompts {
 		rs = append(rs, baseReq{"prompts/get:" + p.name, "prompts/get", vp(Obj(F("name", Str(p.name)), F("arguments", Obj(F("a", Str("x")), F("b", Int(5)), F("c", Str(""))))))})
 	}
@@ -811,5 +820,28 @@ func LifecycleCases(reg *Registry) []Case {
 	add("initialized-a-third-time", notif)
 	add("initialize-after-that", ini())
 	add("ping", env(Str("lc-ping"), "ping", nil))
+	return cs
+}
+
+// VersionSequenceCases: an ORDERED sequence — for each protocol version a client may ask for (the old revision, the
+// current one, an unsupported one): initialize with it, then the lists and a call on the same session. What a session
+// remembers of its handshake must not change the answers of one transport and not of another.
+func VersionSequenceCases(reg *Registry) []Case {
+	var cs []Case
+	k := 0
+	add := func(label string, b baseReq) {
+		k++
+		cs = append(cs, mkCase(reg, fmt.Sprintf("version-seq:%02d:%s", k, label), Str(fmt.Sprintf("vs-%d", k)), b, "version-sequence"))
+	}
+	for _, v := range []string{"2024-11-05", "2025-03-26", "1999-01-01", "2024-11-05"} {
+		add("initialize-"+v, baseReq{"initialize", "initialize", initParams(v)})
+		add("initialized", baseReq{"ping", "ping", nil})
+		add("tools/list-after-"+v, baseReq{"tools/list", "tools/list", nil})
+		add("prompts/list-after-"+v, baseReq{"prompts/list", "prompts/list", nil})
+		add("resources/list-after-"+v, baseReq{"resources/list", "resources/list", nil})
+		if reg.tool("annotated") != nil {
+			add("tools/call-after-"+v, baseReq{"tools/call:annotated", "tools/call", vp(Obj(F("name", Str("annotated"))))})
+		}
+	}
 	return cs
 }
